@@ -69,7 +69,9 @@ def make (c):
     elif u < 0.6:
         spec = gen.fam_free (rng, equal_junction = bool (rng.random () < 0.5), shift = False)
     else:
-        spec = gen.fam_ground (rng, shift = False)
+        # (grounded wires that are not vertical twice as often: their ground pulse is bent, its matrix terms depend
+        # on the azimuth the wire leaves the ground point in)
+        spec = gen.fam_ground (rng, fam = (str (rng.choice (['slope', 'lean', 'slope'])) if rng.random () < 0.3 else None), shift = False)
     gen.add_sources (rng, spec, nmax = 2)
     if any ('p' in s for s in spec ['src']):
         return None
@@ -102,6 +104,8 @@ def add_motion (c, rng, spec, scale = True, taper = True):
             tr.append (['translate', key, [float (x) for x in v]])
     sc = float (10 ** rng.uniform (-2, 2)) if rng.random () < 0.6 and scale else None
     spec ['motion'] = dict (tr = tr, sc = sc, per_tag = per_tag, order = [int (x) for x in rng.permutation (len (tr))])
+    if sc and np.random.default_rng ([c ['seed'], 56, c ['i']]).random () < 0.4:
+        spec ['motion']['split'] = float (np.random.default_rng ([c ['seed'], 57, c ['i']]).choice ([0.25, 0.5, 3.0, 10.0]))
     spec ['dirs'] = rng.normal (size = (8, 3)).tolist ()
     spec = gen.clean (spec)
     if not taper:
@@ -160,6 +164,10 @@ def variants (spec):
     b1 ['tr'] = opts
     if mo ['sc']:
         b1 ['sc'] = [[mo ['sc'], t] for t in tags] if mo ['per_tag'] else [[mo ['sc'], None]]
+        if mo.get ('split'):
+            # the same factor asked for in two requests (one object first, then everything; or twice everything)
+            s1 = mo ['split']
+            b1 ['sc'] = [[s1, t] for t in tags] + [[mo ['sc'] / s1, None]] if mo ['per_tag'] else [[s1, None], [mo ['sc'] / s1, None]]
         b1 ['f'] = spec ['f'] / mo ['sc']
     b1 ['src']   = [moved_src (s) for s in spec ['src']]
     b1 ['loads'] = [moved_load (l) for l in spec ['loads']]
